@@ -121,14 +121,18 @@ Section Count.
 Variable g : grammar.
 Variable nl : list N.
 Variable rho : N -> nat.
+Variable P : N -> Prop.
 Hypothesis Hwf : wf_grammar g = true.
 Hypothesis Hcl : nullable_closed g nl = true.
 Let Rk := N.to_nat (nrules g).
 Let M := maxrhs g.
-Hypothesis Hpot : hl_pot g nl rho Rk.
+Hypothesis Hpot : hl_pot_on P g nl rho Rk.
+(* P holds of the start rule and is closed under "occurs in a production of" *)
+Hypothesis HPstart : P (start_rule g).
+Hypothesis HPstep : forall p b, is_prod g p -> P (lhs g p) -> In (R b) (rhs g p) -> P b.
 
 Definition spine_inv (stk : stack) (p : N) (d : nat) : Prop :=
-  is_prod g p /\ d <= length stk /\
+  is_prod g p /\ P (lhs g p) /\ d <= length stk /\
   map (root g) (rev (map snd (firstn d stk))) = firstn d (rhs g p) /\
   length (skipn d stk) + M * rho (lhs g p) <= lv (skipn d stk) * (M * (Rk + 1)) + M * Rk.
 
@@ -139,13 +143,15 @@ Proof.
   - (* the start production *)
     unfold spine_inv. simpl.
     pose proof (wf_start_is_prod g Hwf) as Hp.
-    split; [exact Hp|]. split; [lia|]. split; [reflexivity|].
+    split; [exact Hp|]. split; [exact HPstart|]. split; [lia|]. split; [reflexivity|].
     pose proof (proj2 Hpot (lhs g (start_prod g)) (wf_lhs_range g _ Hwf Hp)) as Hlt.
     assert (M * rho (lhs g (start_prod g)) <= M * Rk) by (apply Nat.mul_le_mono_l; lia). lia.
   - (* a production opened at the dot of p *)
-    destruct (IH Hv) as (Hp & Hd & Hroots & Hbound).
+    destruct (IH Hv) as (Hp & HP & Hd & Hroots & Hbound).
     unfold spine_inv. cbn [skipn firstn map rev].
-    split; [exact Hq|]. split; [lia|]. split; [reflexivity|].
+    split; [exact Hq|].
+    split; [exact (HPstep p (lhs g q) Hp HP (nth_error_In _ _ Hn))|].
+    split; [lia|]. split; [reflexivity|].
     pose proof (proj2 Hpot (lhs g q) (wf_lhs_range g _ Hwf Hq)) as Hq_lt.
     assert (HdM : d <= M).
     { pose proof (maxrhs_spec g p Hp). pose proof (Prefix.nth_error_lt _ _ _ Hn). lia. }
@@ -159,7 +165,7 @@ Proof.
           apply Forall_app in Hv. exact (proj1 Hv).
         - apply leaves_nil_yield_nil. apply flat_map_nil_rev.
           unfold lv in Hlv. apply length_zero_iff_nil. exact Hlv. }
-      pose proof (proj1 Hpot p _ _ _ Hp (Prefix.nth_error_split_at _ _ _ Hn) Hnull) as Hstep.
+      pose proof (proj1 Hpot p _ _ _ Hp HP (Prefix.nth_error_split_at _ _ _ Hn) Hnull) as Hstep.
       destruct d as [|d'].
       * cbn [firstn is_nil] in Hstep.
         assert (M * rho (lhs g q) <= M * rho (lhs g p)) by (apply Nat.mul_le_mono_l; lia). lia.
@@ -173,16 +179,16 @@ Proof.
       rewrite Nat.mul_add_distr_r. cbn [Nat.mul]. lia.
   - (* a symbol of p pushed *)
     assert (Hv' : Forall (valid_tree g) (map snd stk)) by (inversion Hv; assumption).
-    destruct (IH Hv') as (Hp & Hd & Hroots & Hbound).
+    destruct (IH Hv') as (Hp & HP & Hd & Hroots & Hbound).
     unfold spine_inv. cbn [skipn firstn map rev length snd].
-    split; [exact Hp|]. split; [lia|]. split; [|exact Hbound].
+    split; [exact Hp|]. split; [exact HP|]. split; [lia|]. split; [|exact Hbound].
     rewrite map_app, Hroots. cbn [map]. symmetry. apply Prefix.firstn_S_nth_error. exact Hn.
 Qed.
 
 Lemma spine_height stk p d : Forall (valid_tree g) (map snd stk) ->
   spine g stk p d -> length stk <= (lv stk + 1) * M * (Rk + 1).
 Proof.
-  intros Hv Hsp. destruct (spine_count stk p d Hv Hsp) as (Hp & Hd & Hroots & Hbound).
+  intros Hv Hsp. destruct (spine_count stk p d Hv Hsp) as (Hp & _ & Hd & Hroots & Hbound).
   assert (HdM : d <= M).
   { pose proof (maxrhs_spec g p Hp).
     assert (length (firstn d (rhs g p)) = d).
